@@ -94,7 +94,7 @@ func (w *WideQ) opts() Opts {
 
 var wideConstructs = []string{"filter", "case", "in-list", "between", "fn-args", "group", "group-having", "group-by-expr", "whole-agg", "join", "left-join", "parallel-join",
 	"hash-join", "cte", "cte-twice", "derived", "sel-sub", "sel-sub-root", "in-sub", "exists", "not-exists", "union", "union-all", "order-limit", "distinct", "nested-from", "star-sub", "like-is", "join-derived", "cte-join", "in-sub-root", "exists-outer", "having-agg",
-	"join-on-fn", "join-on-fn", "join-unaliased", "join-unaliased", "derived-cte", "join-derived-cte", "in-sub-cte", "sel-sub-cte", "exists-cte", "cte-union", "cte-nested", "selector-item", "selector-item", "fuse-item", "cte-path"}
+	"join-on-fn", "join-on-fn", "join-unaliased", "join-unaliased", "derived-cte", "join-derived-cte", "in-sub-cte", "sel-sub-cte", "exists-cte", "cte-union", "cte-nested", "selector-item", "selector-item", "fuse-item", "cte-path", "star-plain", "star-plain", "group-qualified"}
 
 func genWide(t *rapid.T, only []string) *WideQ {
 	doc, sc := genC07Doc(t)
@@ -144,6 +144,11 @@ func genWideOn(t *rapid.T, doc map[string]any, sc *c07Schema, only []string) *Wi
 		w.Unordered = true
 	case "group-having":
 		w.Tpl = fmt.Sprintf("SELECT %s, COUNT(*) AS n FROM {T}%s GROUP BY %s HAVING COUNT(*) %s {F@having:%s}", s, optWhere("w", ""), s, op("hop"), num("hc"))
+		if rapid.IntRange(0, 2).Draw(t, "gh-selectfn") == 0 {
+			// functions in the select list of a grouped query that also has a HAVING clause (aliased and not)
+			w.Tpl = fmt.Sprintf("SELECT %s, {F@grouped-select-item:%s} AS gs, COUNT(*) AS n, {F@grouped-select-item-2:MAX(%s)} AS mx FROM {T}%s GROUP BY %s HAVING COUNT(*) %s %s OR {F@having:%s} = 'zz'",
+				s, s, v, optWhere("w", ""), s, op("hop"), num("hc"), s)
+		}
 		w.Unordered = true
 	case "group-by-expr":
 		w.Tpl = fmt.Sprintf("SELECT COUNT(*) AS n, MIN(%s) AS mn FROM {T}%s GROUP BY {F@group-by-expression:%s}", v, optWhere("w", ""), k)
@@ -308,6 +313,43 @@ func genWideOn(t *rapid.T, doc map[string]any, sc *c07Schema, only []string) *Wi
 		if rapid.IntRange(0, 3).Draw(t, "cteback") == 0 {
 			w.Tpl = fmt.Sprintf("WITH c AS (SELECT {F@cte-body:%s} AS kk, %s FROM {T}) SELECT %s, (SELECT kk FROM `<-c[0]`) AS sb FROM {T}", k, s, k)
 		}
+	case "star-plain":
+		// the bare star: rows go through as they are - also under WHERE, ORDER BY, DISTINCT and LIMIT
+		w.Tpl = "SELECT " + rapid.SampledFrom([]string{"*", "*", "DISTINCT *"}).Draw(t, "starkind") + " FROM {T}" + optWhere("w", "")
+		if rapid.Bool().Draw(t, "starorder") {
+			w.Tpl += fmt.Sprintf(" ORDER BY %s %s, %s", k, rapid.SampledFrom([]string{"ASC", "DESC"}).Draw(t, "dir"), v)
+		}
+		if rapid.IntRange(0, 2).Draw(t, "starlimit") == 0 {
+			w.Tpl += fmt.Sprintf(" LIMIT %d", rapid.IntRange(0, 3).Draw(t, "n"))
+		}
+	case "group-qualified":
+		// grouping keys written as paths: alias.column on an aliased table, object.key on a nested object that
+		// some rows lack (or that lacks the key)
+		rows, _ := doc["t"].([]any)
+		for r, row := range rows {
+			if rm, ok := row.(map[string]any); ok {
+				switch rapid.IntRange(0, 3).Draw(t, fmt.Sprintf("gq%d", r)) {
+				case 0:
+					rm["o"] = map[string]any{"u": float64(r % 2)}
+				case 1:
+					// no object at all
+				default:
+					rm["o"] = map[string]any{"u": float64(r % 2), "w": rapid.SampledFrom([]string{"x", "y"}).Draw(t, fmt.Sprintf("gq%d.w", r))}
+				}
+				if rapid.IntRange(0, 3).Draw(t, fmt.Sprintf("gq%d.drop", r)) == 0 {
+					delete(rm, s)
+				}
+			}
+		}
+		switch rapid.IntRange(0, 2).Draw(t, "gqform") {
+		case 0:
+			w.Tpl = fmt.Sprintf("SELECT COUNT(*) AS n, SUM({F@aggregate-argument:%s}) AS sv FROM {T} GROUP BY o.w", v)
+		case 1:
+			w.Tpl = fmt.Sprintf("SELECT x.%s, COUNT(*) AS n FROM {T} x GROUP BY x.%s", s, s)
+		default:
+			w.Tpl = fmt.Sprintf("SELECT COUNT(*) AS n FROM {T} x JOIN {T2} y ON x.%s = y.%s GROUP BY x.%s, x.o.w", k, c2, s)
+		}
+		w.Unordered = true
 	case "like-is":
 		w.Tpl = fmt.Sprintf("SELECT %s, %s FROM {T} WHERE {F@like-operand:%s} LIKE %s OR {F@is-operand:%s} IS NULL OR %s IS NOT NULL", k, s, s, sq.StrLit(rapid.SampledFrom([]string{"a%", "%b", "_", "%"}).Draw(t, "pat")), "nokey", v)
 	}
